@@ -183,6 +183,7 @@ impl Res {
                 }
             }
             Stmt::Expr(e) => self.expr(e),
+            Stmt::Raw(_) => {}
         }
     }
 
@@ -625,6 +626,7 @@ impl<'p> Interp<'p> {
                 self.expr(e, scope)?;
                 Ok(Flow::Next)
             }
+            Stmt::Raw(_) => stuck("raw statement"),
         }
     }
 
